@@ -259,14 +259,14 @@ class O2JEventPackage:
             log.debug(f"Event Data: {data[0 + i * 4:4 + i * 4]}")
 
             if note_type == O2JConst.HIT_BYTES:
-                hit = O2JHit(volume=volume, pan=pan, offset=0, column=column)
+                hit = O2JHit(volume=volume, pan=pan, offset=0.0, column=column)
                 hit.measure = sub_measure
                 notes.append(hit)
                 log.debug(f"Appended Note {column} at {sub_measure}")
 
             elif note_type == O2JConst.HOLD_HEAD_BYTES:
                 hold = O2JHold(
-                    volume=volume, pan=pan, column=column, length=-1, offset=0
+                    volume=volume, pan=pan, column=column, length=-1.0, offset=0.0
                 )
                 hold.measure = sub_measure
                 hold_buffer[column] = hold
